@@ -130,6 +130,10 @@ func FromIface(x interface{}) (*AV, error) {
 		f, err := num(n)
 		return Num(f), err
 	}
+	if b, ok := m["big"]; ok { // a number beyond TLC's integers, given as decimal text
+		f, err := strconv.ParseFloat(fmt.Sprint(b), 64)
+		return Num(f), err
+	}
 	if h, ok := m["h"]; ok {
 		f, err := num(h)
 		return Num(f + 0.5), err
